@@ -69,6 +69,8 @@ func runC09(c *Ctx) {
 		}
 		perInv := 5 + r.Intn(60)
 		mode := []string{"fast", "token", "burst"}[r.Intn(3)]
+		longLines := r.Intn(3) == 0
+		nPings := []int{0, 5, 40}[r.Intn(3)]
 		c.J.Log("CASE %s users=%d fg=%d bg=%d events=%d perUser=%d perInv=%d mode=%s", Case("run", idx), nUser, nFg, nBg, events, perUser, perInv, mode)
 
 		s := NewSession(SessionOpts{Flood: true})
@@ -89,6 +91,9 @@ func runC09(c *Ctx) {
 		senderSeq := int64(0)
 		payload := func(rr interface{ Intn(int) int }) string {
 			n := []int{0, 1, 7, 60, 200, 480}[rr.Intn(6)]
+			if longLines && rr.Intn(40) == 0 {
+				n = 4090 + rr.Intn(3000) // longer than the client's 4096-byte write buffer
+			}
 			b := make([]byte, n)
 			for i := range b {
 				x := byte(32 + rr.Intn(95))
@@ -174,6 +179,14 @@ func runC09(c *Ctx) {
 		for e := 0; e < events; e++ {
 			mc.SendLine(fmt.Sprintf(":srv GO %d", e))
 		}
+		// server PINGs while everybody is sending: the PONGs are one more sender (the built-in handler)
+		for k := 0; k < nPings; k++ {
+			mc.SendLine(fmt.Sprintf("PING :p%d", k))
+			if k%8 == 7 {
+				time.Sleep(50 * time.Microsecond)
+			}
+		}
+
 		done := make(chan struct{})
 		go func() { wg.Wait(); invWG.Wait(); close(done) }()
 		if !waitCh(done) {
@@ -186,6 +199,14 @@ func runC09(c *Ctx) {
 				c.R.Inconcl(fmt.Sprintf("%s: senders did not finish (%s)", Case("run", idx), ds.Reason))
 			}
 			return
+		}
+		if nPings > 0 {
+			// every PING has been processed once a marker sent after them has been handled
+			if !s.FgMarker(mc) {
+				c.R.Inconcl(fmt.Sprintf("%s: marker after the PINGs not reached", Case("run", idx)))
+				close(stop)
+				return
+			}
 		}
 		s.Conn.Raw("VSYNC end")
 		ok := mc.WaitLines(WaitLong, func(lines []string) bool { return len(lines) > 0 && lines[len(lines)-1] == "VSYNC end" })
@@ -210,7 +231,20 @@ func runC09(c *Ctx) {
 			c.R.Violate(rig.Violation{Sig: "c09|" + kind, Detail: fmt.Sprintf("users=%d fg=%d bg=%d mode=%s procs=%s: %s", nUser, nFg, nBg, mode, procs, detail), Case: Case("run", idx)})
 		}
 		bad := false
+		lastPong := -1
+		pongs := 0
 		for _, l := range lines {
+			if strings.HasPrefix(l, "PONG :p") {
+				k, err := strconv.Atoi(strings.TrimPrefix(l, "PONG :p"))
+				if err != nil || k != lastPong+1 {
+					viol("pong-order", fmt.Sprintf("PONG %q after PONG #%d", clipS(l), lastPong))
+					bad = true
+					break
+				}
+				lastPong = k
+				pongs++
+				continue
+			}
 			if !strings.HasPrefix(l, "S") {
 				viol("foreign-line", fmt.Sprintf("unexpected line on the wire %q", clipS(l)))
 				bad = true
@@ -266,6 +300,9 @@ func runC09(c *Ctx) {
 				}
 			}
 		}
+		if !bad && pongs != nPings {
+			viol("pong-count", fmt.Sprintf("%d PONGs on the wire for %d PINGs", pongs, nPings))
+		}
 		nSenders := len(last)
 		interleaved = switches > nSenders
 		full := atomic.LoadInt64(&maxBacklog) >= 33
@@ -289,7 +326,7 @@ func runC09(c *Ctx) {
 			sb = "2-4"
 		}
 		if interleaved && (full || mode == "fast") {
-			c.R.Class(fmt.Sprintf("senders%s|%s|%s|procs%s|interleaved|full=%v", sb, kinds, mode, procs, full))
+			c.R.Class(fmt.Sprintf("senders%s|%s|%s|procs%s|interleaved|full=%v|long=%v|pings=%v", sb, kinds, mode, procs, full, longLines, nPings > 0))
 		}
 		if interleaved {
 			c.R.Count("runs_interleaved", 1)
@@ -300,7 +337,7 @@ func runC09(c *Ctx) {
 		c.R.Max("max_backlog", atomic.LoadInt64(&maxBacklog))
 		if idx%7 == 0 {
 			c.R.Sample(map[string]interface{}{"users": nUser, "fg_handlers": nFg, "bg_handlers": nBg, "events": events, "per_user": perUser, "per_invocation": perInv,
-				"server_mode": mode, "procs": procs, "lines": len(lines), "sender_switches_on_wire": switches, "max_backlog": atomic.LoadInt64(&maxBacklog)})
+				"server_mode": mode, "procs": procs, "lines": len(lines), "long_lines": longLines, "server_pings": nPings, "sender_switches_on_wire": switches, "max_backlog": atomic.LoadInt64(&maxBacklog)})
 		}
 		s.Conn.Close()
 		s.Release()
